@@ -353,3 +353,61 @@ func VerifC18Started() {
 	a.Stop()
 	verifapi.Quiesce()
 }
+
+// VerifC18Rounds: several keep-alive rounds of ONE agent in which the same
+// peer has to go more than once: the pool declares it invalid (or strict
+// peering stops listing it), it is removed, it comes back onto the node - the
+// pool has the agent whitelist it again, or it simply dials in again - and a
+// later round has to remove it again. After EACH round every peer that round
+// condemned has been un-trusted and disconnected in that round, and no other.
+func VerifC18Rounds() {
+	node := &verifNode{ua: ethnode.UserAgent{Kind: ethnode.Geth, IsFullNode: true}}
+	bad, good := verifapi.NodeID(1), verifapi.NodeID(2)
+	peer := func(id, addr string) ethnode.PeerInfo {
+		pi := ethnode.PeerInfo{ID: id}
+		pi.Network.RemoteAddress = addr
+		return pi
+	}
+	script := &verifPoolScript{update: &pool.UpdateResponse{}}
+	a := &Agent{EthNode: node, StrictPeers: verifapi.Bool("strict")}
+	a.nodeInfo = node.ua
+	rounds := verifapi.Param("rounds", 3)
+	for r := 0; r < rounds; r++ {
+		// what is on the node now: the good peer, and possibly the bad one (again)
+		badPresent := verifapi.Bool(fmt.Sprint("bad-peer-present", r))
+		node.peers = []ethnode.PeerInfo{peer(good, "192.0.2.2:30303")}
+		if badPresent {
+			node.peers = append(node.peers, peer(bad, "192.0.2.1:30303"))
+			if verifapi.Bool(fmt.Sprint("whitelisted-again", r)) {
+				// the pool asked this agent (a host) to let the peer in again since the last round
+				a.Whitelist(context.Background(), bad)
+			}
+		}
+		// the pool's verdict of this round
+		condemn := verifapi.Bool(fmt.Sprint("declared-invalid", r))
+		script.update = &pool.UpdateResponse{ActivePeers: []string{"enode://" + good + "@192.0.2.2:30303"}}
+		if condemn {
+			script.update.InvalidPeers = []string{bad}
+		} else if !a.StrictPeers || !badPresent {
+			script.update.ActivePeers = append(script.update.ActivePeers, "enode://"+bad+"@192.0.2.1:30303")
+		}
+		nu, nd := verifCountStr(node.untrusted, bad), verifCountStr(node.dropped, bad)
+		gu, gd := verifCountStr(node.untrusted, good), verifCountStr(node.dropped, good)
+		err := a.UpdatePeers(context.Background(), script)
+		verifapi.Assert(err == nil, "c18.rounds.update-succeeds")
+		// strict peering condemns the bad peer too when it is present and not listed
+		listed := false
+		for _, u := range script.update.ActivePeers {
+			listed = listed || u == "enode://"+bad+"@192.0.2.1:30303"
+		}
+		mustGo := condemn || (a.StrictPeers && badPresent && !listed)
+		if mustGo {
+			// (at least once: a peer that is both declared invalid and unlisted under strict peering is told twice)
+			verifapi.Assert(verifCountStr(node.untrusted, bad) >= nu+1 && verifCountStr(node.dropped, bad) >= nd+1, "c18.invalid-peer-untrusted-and-disconnected-in-every-round")
+		} else {
+			verifapi.Assert(verifCountStr(node.untrusted, bad) == nu && verifCountStr(node.dropped, bad) == nd, "c18.no-other-peer-removed")
+		}
+		verifapi.Assert(verifCountStr(node.untrusted, good) == gu && verifCountStr(node.dropped, good) == gd, "c18.no-other-peer-removed")
+	}
+	verifapi.Reach("c18.rounds")
+}
